@@ -15,6 +15,11 @@ Open Scope N_scope.
 
 Definition read_outside (r : row) : option N := lookup r tab_outside.
 
+(* the same lookup through one bucket per header type (what the correspondence evaluates: 16 times fewer comparisons) *)
+Definition bucket (t : N) : list (row * N) := filter (fun kv => r_ty (fst kv) =? t) tab_outside.
+Definition buckets : list (list (row * N)) := Eval vm_compute in map bucket (map N.of_nat (seq 0 16)).
+Definition read_fast (r : row) : option N := lookup r (nth (N.to_nat (r_ty r)) buckets []).
+
 (* ---- the feature space ---------------------------------------------------------------------------------- *)
 
 Definition is_hs (r : row) : bool := r_ty r =? t_handshake.
@@ -70,17 +75,20 @@ Definition f12_region (r : row) : bool :=
 
 (* C14 as a predicate on what one datagram did. "Nothing is delivered, no tunnel is closed, no roaming or liveness
    update happens, no lighthouse or relay state changes" unless the packet is authentic and fresh; "only an
-   authenticated close message tears a tunnel down". Handshake packets are the handshake manager's business. *)
+   authenticated close message tears a tunnel down". Handshake-typed packets are the handshake manager's business
+   (C05-C10) and outside this rule. *)
 Definition spec_ok (r : row) (m : N) : bool :=
-  negb (has e_other m) &&
-  (subset m m_recverr || authfresh r || (is_hs r && subset m m_hs)) &&
-  implb (has e_close m) ((r_ty r =? t_close_tunnel) && authfresh r).
+  is_hs r ||
+  (negb (has e_other m) &&
+   (subset m m_recverr || authfresh r) &&
+   implb (has e_close m) ((r_ty r =? t_close_tunnel) && authfresh r)).
 
 (* the same with the recv_error region carved out (what holds of the code as it is) *)
 Definition spec_ok_f12 (r : row) (m : N) : bool :=
-  negb (has e_other m) &&
-  (subset m m_recverr || authfresh r || (is_hs r && subset m m_hs) || (f12_region r && subset m m_close)) &&
-  implb (has e_close m) ((r_ty r =? t_close_tunnel) && authfresh r || f12_region r).
+  is_hs r ||
+  (negb (has e_other m) &&
+   (subset m m_recverr || authfresh r || (f12_region r && subset m m_close)) &&
+   implb (has e_close m) ((r_ty r =? t_close_tunnel) && authfresh r || f12_region r)).
 
 (* ---- a relay packet and its payload ------------------------------------------------------------------------ *)
 
@@ -91,13 +99,13 @@ Definition as_relayed (r : row) : row :=
   mkRow (r_ty r) (r_st r) (r_ver r) VRelayed (r_cfgS r) (r_cfgA r) (r_idx r) (r_full r) (r_auth r) (r_fresh r) (r_rel r) (r_rm r).
 
 Definition read_nested (outer : row) (inner : option row) : option N :=
-  match read_outside outer with
+  match read_fast outer with
   | None => None
   | Some m =>
     if has e_unwrap m then
       match inner with
       | None => Some m
-      | Some i => match read_outside (as_relayed i) with
+      | Some i => match read_fast (as_relayed i) with
                   | None => None
                   | Some mi => Some (N.lor (clear e_unwrap m) mi)
                   end
